@@ -134,6 +134,16 @@ class Bang(BlockToken):
         return [next(lines)]
 
 
+class CalloutHeading(block_token.Heading):
+    """User token derived from a BUILT-IN block token: '!! text' is a callout, parsed like an ATX heading."""
+    pattern = re.compile(r' {0,3}(!{1,6})(?:\n|\s+?(.*?)(\n|\s+?!+\s*?$))')
+
+
+class DashStrike(span_token.Strikethrough):
+    """User token derived from a BUILT-IN span token."""
+    pattern = re.compile(r"(?<!\\)(?:\\\\)*--(.+?)--", re.DOTALL)
+
+
 class BangInterrupt(Bang):
     """Same, and it may interrupt a paragraph."""
     @classmethod
@@ -271,13 +281,13 @@ def unregister(name):
 
 
 TOKENS = {
-    'CurlyTwin': _CurlyTwin, 'Curly': Curly, 'CurlyRaw': CurlyRaw, 'CurlyLow': CurlyLow, 'Bang': Bang, 'BangInterrupt': BangInterrupt,
+    'CalloutHeading': CalloutHeading, 'DashStrike': DashStrike, 'CurlyTwin': _CurlyTwin, 'Curly': Curly, 'CurlyRaw': CurlyRaw, 'CurlyLow': CurlyLow, 'Bang': Bang, 'BangInterrupt': BangInterrupt,
     'FaultBlockStart': FaultBlockStart, 'FaultBlockRead': FaultBlockRead, 'FaultBlockInit': FaultBlockInit,
     'FaultBlockInterrupt': FaultBlockInterrupt, 'FaultSpanFind': FaultSpanFind, 'FaultSpanInit': FaultSpanInit,
     'RenderFaultSpan': RenderFaultSpan, 'RenderFaultBlock': RenderFaultBlock,
 }
-BENIGN_SPAN = ['Curly', 'CurlyRaw', 'CurlyLow', 'CurlyTwin']
-BENIGN_BLOCK = ['Bang', 'BangInterrupt']
+BENIGN_SPAN = ['Curly', 'CurlyRaw', 'CurlyLow', 'CurlyTwin', 'DashStrike']
+BENIGN_BLOCK = ['Bang', 'BangInterrupt', 'CalloutHeading']
 FAULT_BLOCK = ['FaultBlockStart', 'FaultBlockRead', 'FaultBlockInit', 'FaultBlockInterrupt']
 FAULT_SPAN = ['FaultSpanFind', 'FaultSpanInit']
 FAULT_RENDER = ['RenderFaultSpan', 'RenderFaultBlock']
